@@ -47,7 +47,7 @@ TX = {
 # The flip alphabet is cut to the 8 bits of the content-type byte so that it does not drown the other classes.
 SIM = {"quick": dict(num=30, depth=6, reps="{1, 5}"), "thorough": dict(num=150, depth=8, reps="{1, 5}")}
 SIM_FB = dict(FbApp=8, FbAlert=8, FbHs=8, FbCcs=8)
-REPS = {"quick": dict(normal=3, burst=400, early=40), "thorough": dict(normal=40, burst=5000, early=600)}
+REPS = {"quick": dict(normal=3, burst=400, early=40), "thorough": dict(normal=12, burst=1200, early=300)}
 
 
 def write_cfg(path, part, *, deviations="{}", fb=None, senders="{1}", sizes="{0}", earlies="{FALSE}",
@@ -248,7 +248,8 @@ def validate_trace(ck, trace, label):
     sink = os.path.join(ck.dir, f"bad_{label}.ndjson")
     env = {"TRACE": trace, "JAVA_TOOL_OPTIONS": "-Xmx6g -Xss1g -Dtlc2.tool.queue.IStateQueue=StateDeque"}
     res = vlib.tlc("Trace_DtlsRecord", "Trace_DtlsRecord.cfg", workers=1, tags=("BAD",), sinks={"BAD": sink},
-                   timeout=2400, env=env, heap="6g", tag=f"C03trace{label}", seed_arg=False)
+                   timeout=2400, env=env, heap="6g", tag=f"C03trace{label}", seed_arg=False,
+                   extra=("-checkpoint", "0"))   # StateDeque cannot checkpoint
     vlib.tlc_ok(res, "trace")
     rows = vlib.read_ndjson(sink)
     if not rows:
